@@ -264,6 +264,69 @@ theorem followPath_num (steps : List JsonStep) (l : LVal) (j : Json) (h : toJson
   · rintro ⟨lex, hl, hs⟩
     exact ⟨.num lex, hl, by rw [toJson, hs]; rfl⟩
 
+/-! ### the literals of a sub-tree are literals of the tree -/
+
+theorem lexemes_lastMember (name : List Nat) : ∀ (ms : List (List Char × LVal)) (x : LVal),
+    lastMember name ms = some x → ∀ lex ∈ x.lexemes, lex ∈ LVal.lexemesMembers ms
+  | [], x, h => by simp [lastMember] at h
+  | (k, y) :: ms, x, h => by
+    rw [lastMember] at h
+    intro lex hlex
+    rw [LVal.lexemesMembers]
+    cases hl : lastMember name ms with
+    | some z =>
+      rw [hl] at h; cases h
+      exact List.mem_append_right _ (lexemes_lastMember name ms x hl lex hlex)
+    | none =>
+      rw [hl] at h
+      by_cases hk : Utf8.encode k = name
+      · simp only [hk, if_true, Option.some.injEq] at h; subst h
+        exact List.mem_append_left _ hlex
+      · simp [hk] at h
+
+theorem lexemes_getElem : ∀ (xs : List LVal) (i : Nat) (x : LVal), xs[i]? = some x →
+    ∀ lex ∈ x.lexemes, lex ∈ LVal.lexemesList xs
+  | [], i, x, h => by simp at h
+  | y :: xs, 0, x, h => by
+    simp only [List.getElem?_cons_zero, Option.some.injEq] at h; subst h
+    intro lex hlex; rw [LVal.lexemesList]; exact List.mem_append_left _ hlex
+  | y :: xs, i + 1, x, h => by
+    simp only [List.getElem?_cons_succ] at h
+    intro lex hlex; rw [LVal.lexemesList]
+    exact List.mem_append_right _ (lexemes_getElem xs i x h lex hlex)
+
+theorem lexemes_step (l l' : LVal) (s : JsonStep) (h : l.step s = some l') : ∀ lex ∈ l'.lexemes, lex ∈ l.lexemes := by
+  cases l with
+  | obj ms =>
+    cases s with
+    | field name => rw [LVal.lexemes]; exact lexemes_lastMember name ms l' h
+    | index i => cases h
+  | arr xs =>
+    cases s with
+    | field name => cases h
+    | index i => rw [LVal.lexemes]; exact lexemes_getElem xs i l' h
+  | null => cases s <;> cases h
+  | bool b => cases s <;> cases h
+  | str t => cases s <;> cases h
+  | num lex => cases s <;> cases h
+
+theorem lexemes_followL : ∀ (steps : List JsonStep) (l l' : LVal), followL steps l = some l' →
+    ∀ lex ∈ l'.lexemes, lex ∈ l.lexemes
+  | [], l, l', h => by cases h; exact fun _ hx => hx
+  | s :: rest, l, l', h => by
+    rw [followL] at h
+    cases hs : l.step s with
+    | none => rw [hs] at h; cases h
+    | some l1 =>
+      rw [hs] at h
+      intro lex hlex
+      exact lexemes_step l l1 s hs lex (lexemes_followL rest l1 l' h lex hlex)
+
+/-- the literal a path addresses is one of the text's number literals -/
+theorem followL_lexeme (steps : List JsonStep) (l : LVal) (lex : List Char) (h : followL steps l = some (.num lex)) :
+    lex ∈ l.lexemes :=
+  lexemes_followL steps l _ h lex (by simp [LVal.lexemes])
+
 /-! ### the walk on the denotation -/
 
 theorem lastMember_erase (name : List Nat) : ∀ ms : List (List Char × LVal),
